@@ -2923,6 +2923,9 @@ class Transport(threading.Thread, ClosingContextManager):
         self.server_extensions = extensions
 
     def _parse_newkeys(self, m):
+        if self.kex_engine is None:
+            # no key exchange in progress: there are no new keys to switch to
+            raise MessageOrderError("NEWKEYS received outside a key exchange")
         self._log(DEBUG, "Switch to new keys ...")
         self._activate_inbound()
         # can also free a bunch of stuff here
